@@ -210,6 +210,15 @@ func (w *WaterMark) process(closer *z.Closer) {
 	}
 
 	for {
+		if vhook.On {
+			// Under simulation a closed closer deterministically wins over pending
+			// marks (the runtime would pick one of the two ready cases at random).
+			select {
+			case <-closer.HasBeenClosed():
+				return
+			default:
+			}
+		}
 		select {
 		case <-closer.HasBeenClosed():
 			return
